@@ -16,6 +16,10 @@ SmallContents ==
 \* directed: fan-outs where version 1 has no index and versions 2-3 have one; pack boundaries
 Wide(nt, tail, val(_)) == [i \in 1..nt |-> << <<i - 1 + (256 - nt)>> \o tail, val(i) >>]
 Directed == {
+    Wide(31, <<>>, LAMBDA i : UFromNat(i)),
+    Wide(32, <<>>, LAMBDA i : UFromNat(i + 250)),
+    Wide(32, <<7>>, LAMBDA i : UZero),
+    << <<<<1>>, <<5>>>> >> \o Wide(32, <<>>, LAMBDA i : UFromNat(i)),
     Wide(33, <<>>, LAMBDA i : UFromNat(i)),
     Wide(33, <<120>>, LAMBDA i : UZero),
     Wide(40, <<>>, LAMBDA i : IF i % 2 = 0 THEN <<0, 0, 0, 0, 1>> ELSE <<255>>),
